@@ -1,14 +1,17 @@
 #!/bin/sh
 # usage: seed_eval.sh <seed id e.g. C07-1> <PROP> [tier] [extra args]  -- runs ./check PROP against a scratch worktree with the seeded patch applied
+# (works from /verif or from a `vp run` snapshot: everything is relative to this script)
 ID=$1; PROP=$2; TIER=${3:-quick}; shift; shift; shift
+HERE=$(cd "$(dirname "$0")/.." && pwd)
 WT=/tmp/seedrun_$ID
+LOGDIR=${SEED_LOGDIR:-/tmp}
 git -C /repo worktree remove --force $WT >/dev/null 2>&1
 git -C /repo worktree add -f --detach $WT HEAD -q || exit 2
-git -C $WT apply /verif/seeded/$ID/patch.diff || { echo "patch does not apply"; exit 2; }
-cd /verif
-SYMX_REPO=$WT ./check $PROP --tier $TIER --no-evidence "$@" > /tmp/seedrun_$ID.$PROP.log 2>&1
+git -C $WT apply $HERE/seeded/$ID/patch.diff || { echo "seed=$ID patch does not apply"; git -C /repo worktree remove --force $WT; exit 2; }
+cd $HERE
+SYMX_REPO=$WT ./check $PROP --tier $TIER --no-evidence "$@" > $LOGDIR/seedrun_$ID.$PROP.log 2>&1
 RC=$?
-NV=$(grep -c '^VIOLATION' /tmp/seedrun_$ID.$PROP.log)
-echo "seed=$ID check=$PROP tier=$TIER exit=$RC violations=$NV $(grep -o 'wall=[0-9]*s' /tmp/seedrun_$ID.$PROP.log | tail -1)"
-grep -A2 '^VIOLATION' /tmp/seedrun_$ID.$PROP.log | grep 'cell' | head -3
+NV=$(grep -c '^VIOLATION' $LOGDIR/seedrun_$ID.$PROP.log)
+echo "seed=$ID check=$PROP tier=$TIER exit=$RC violations=$NV $(grep -o 'wall=[0-9]*s' $LOGDIR/seedrun_$ID.$PROP.log | tail -1)"
+grep -A2 '^VIOLATION' $LOGDIR/seedrun_$ID.$PROP.log | grep 'cell' | head -3
 git -C /repo worktree remove --force $WT
